@@ -591,11 +591,26 @@ func c11AutoIDs(r *ev.Run) {
 				for i := 0; i < 200; i++ {
 					var id uint32
 					var src string
-					switch i % 3 {
+					switch i % 4 {
 					case 0:
 						id, src = comet.NewVectorNode([]float32{1, 2}).ID(), "NewVectorNode"
 					case 1:
 						id, src = comet.NewMetadataNode(map[string]any{"a": 1}).ID(), "NewMetadataNode"
+					case 3:
+						// a REJECTED add (wrong dimension / unsupported metadata type) beside the successful ones: whatever
+						// it does with the id it drew, no id may be handed out twice afterwards
+						var err error
+						if i%8 == 3 {
+							_, err = hs[(g+i)%len(hs)].Add([]float32{1, 2, 3}, "common", map[string]any{"kind": "doc"})
+						} else {
+							_, err = hs[(g+i)%len(hs)].Add([]float32{1, 2}, "common", map[string]any{"bad": struct{}{}})
+						}
+						if err == nil {
+							mu.Lock()
+							dups = append(dups, "an invalid hybrid.Add was accepted")
+							mu.Unlock()
+						}
+						continue
 					default:
 						var err error
 						id, err = hs[(g+i)%len(hs)].Add([]float32{1, float32(i)}, "common", map[string]any{"kind": "doc"})
